@@ -337,6 +337,8 @@ func checkC11(ctx *core.Ctx, rep *core.Report) {
 	}
 	var targets []target
 	chosen := map[string]bool{}
+	freshRef := c11LoadRef()
+	optDocs := c11OptionDocs(cls)
 	for _, cl := range cls {
 		reg, err := lint.GlobalRegistry().Filter(lint.FilterOptions{IncludeNames: []string{cl.Name}})
 		if err != nil {
@@ -356,6 +358,19 @@ func checkC11(ctx *core.Ctx, rep *core.Report) {
 				continue
 			}
 			jud = append(jud, i)
+			// option-dependent according to the fresh-process table (not contaminated by this process's history)
+			if freshRef != nil {
+				base, okb := freshRef[c11RefKey("empty", cl.Name, all[i].Name)]
+				for _, d := range optDocs {
+					if d.expect[cl.Name] != "option" {
+						continue
+					}
+					if v, ok := freshRef[c11RefKey(d.desc, cl.Name, all[i].Name)]; ok && okb && v != base {
+						dep = append(dep, i)
+						break
+					}
+				}
+			}
 			for _, f := range cl.Fields {
 				for _, v := range altValues(f) {
 					if w := refConfigured(o, cl, f.GoName, v); w.Status != rs.Results[cl.Name].Status {
@@ -428,7 +443,6 @@ func checkC11(ctx *core.Ctx, rep *core.Report) {
 	}
 
 	// ---- documents × objects × {global-copy, filtered copy} -------------------------------
-	freshRef := c11LoadRef()
 	if freshRef == nil {
 		rep.Note("no fresh-process reference table (VERIF_C11_REF): option documents are judged against the in-process reference only")
 	}
@@ -529,6 +543,49 @@ func checkC11(ctx *core.Ctx, rep *core.Report) {
 				}
 			}
 			rep.Sample(3, map[string]interface{}{"document": d.desc, "seed": tg.sd.Name})
+		}
+	}
+	// ---- every seed under the option documents in succession, against the fresh-process table --------
+	if freshRef != nil {
+		for ci, cl := range cls {
+			if !ctx.Mine(uint64(ci)) {
+				continue
+			}
+			reg, err := lint.GlobalRegistry().Filter(lint.FilterOptions{IncludeNames: []string{cl.Name}})
+			if err != nil {
+				continue
+			}
+			for _, d := range optDocs {
+				if d.desc != "empty" && d.expect[cl.Name] != "option" {
+					continue
+				}
+				cfg, err := lint.NewConfigFromString(d.text)
+				if err != nil {
+					continue
+				}
+				reg.SetConfiguration(cfg)
+				for i := range all {
+					if all[i].Kind != cl.Kind {
+						continue
+					}
+					o, err := zl.Parse(all[i].Kind, all[i].DER)
+					if err != nil {
+						continue
+					}
+					rs, p := zl.Lint(o, reg)
+					if p != nil || rs == nil {
+						continue
+					}
+					rep.Inc("states")
+					rep.Inc("transitions")
+					rep.Inc("validated")
+					rep.Inc("fresh_process_comparisons")
+					if why, ok := c11RefCompare(freshRef, d.desc, cl.Name, all[i].Name, rs.Results[cl.Name]); !ok {
+						rep.Violate("C11|"+cl.Name+"|option_not_applied_from_next_run", cl.Name+": "+why+" [document "+d.desc+", seed "+all[i].Name+"]",
+							map[string]interface{}{"op": "document_sweep", "seed": all[i].Name, "toml": d.text})
+					}
+				}
+			}
 		}
 	}
 	if ctx.Shard == 0 {
